@@ -301,14 +301,25 @@ def project_lookup(res, case_spec, scratch_prefix=None):
             if tag.startswith("BEGIN "):
                 cur = int(tag.split()[1])
                 b = blank("begin", cid)
-                b["body"] = (calls[cur].get("path") or "").split("/")
-                b["flag"] = "nofollow" if calls[cur].get("nofollow") else ""
+                cc = calls[cur]
+                b["body"] = (cc.get("path") or "").split("/")
+                b["op"] = cc.get("op")
+                fl = cc.get("oflags", 0)
+                nof = bool(cc.get("nofollow")) or cc.get("op") == "readlink" or bool(fl & O["NOFOLLOW"])
+                b["flag"] = "nofollow" if nof else ""
+                b["n2"] = "nosym" if cc.get("nosym") else ""
+                b["kind"] = "PATH" if (cc.get("op") != "open" or fl & O["PATH"]) else "RDONLY"
+                b["inj"] = bool(cc.get("op") == "open" and fl & O["DIRECTORY"])
                 out.append(b)
             elif tag == "END" and cur is not None:
                 en = blank("end", cid)
                 r = results[cur] if cur < len(results) else {}
-                en["ret"] = 0 if r.get("ok") else -1
+                o = lib_outcome(r)
+                en["ret"] = 0 if o[0] in ("ok", "body") else -1
                 en["rid"] = r.get("id") or 0
+                if o[0] == "body":
+                    en["body"] = split_body(o[1])
+                en["flag"] = str(o[1]) if o[0] == "err" and str(o[1]).startswith("E") else ""
                 out.append(en)
                 cur = None
             continue
@@ -362,8 +373,8 @@ def lookup_conformance(cases, results, max_cases=None, rnd=None):
     """validate many emulated `resolve` traces against Lookup.tla in batched TLC runs; a rejected
     trace (model drift) is recorded with its first unmatched event and skipped"""
     todo = [(c, r) for c, r in zip(cases, results)
-            if not c.get("feat", {}).get("openat2", True) and len(c.get("calls", [])) == 1 and c["calls"][0].get("op") == "resolve"
-            and not c["calls"][0].get("nosym") and r.get("status") == "ok" and c.get("procs", 1) == 1]
+            if not c.get("feat", {}).get("openat2", True) and len(c.get("calls", [])) == 1 and c["calls"][0].get("op") in ("resolve", "open", "readlink")
+            and r.get("status") == "ok" and c.get("procs", 1) == 1]
     if max_cases and len(todo) > max_cases:
         if rnd:
             rnd.shuffle(todo)
